@@ -2,7 +2,7 @@ SPEC = {
     "id": "C40",
     "level": "proof",
     "lean_modules": ["PallasVerif.Props.C40"],
-    "required_theorems": ["build_no_panic", "build_inputs_canonical", "build_redeemers_point_at_targets",
+    "required_theorems": ["build_no_panic", "build_accepts_iff", "build_inputs_canonical", "build_redeemers_point_at_targets",
                           "mint_policies_ascending", "build_mint_content", "build_mint_no_zero", "mint_asset_accumulates",
                           "build_outputs_content", "build_content", "build_id_is_hash_of_body_span"],
     "streams": [{"name": "txbuild", "quick": 500, "thorough": 100000}],
